@@ -26,6 +26,14 @@
     range write) gets an error.  The ghost disk of a file is its content when last read or last SUCCESSFULLY written: a
     save with an injected error is not one.  The `*` flag must stay, :q / :e / :b must be refused, nothing may exit.  The
     model with failing writes (coq/DirtyIoDefs.v, driver model_dirtyio) is asked the same command with the same schedule.
+(6) Round g: :e with an empty or self-referring argument (`e`, `e +1`, `e %`, `e #`, `e! %`; `e <own name>` was there) in every
+    history: without `!` on a buffer whose text differs from its file it must be refused with the text kept, in a saved state it
+    must go through (a re-read); the model (DirtyDefs.ec_edit_noarg / ec_edit_own) answers the same question (GE / GO).
+(7) Round h: sessions that start WITHOUT a file name (gen_noname): the unnamed buffer -- never cleared by lbuf_saved(lb, 1), so
+    useq_last = 0 -- is modified, gets its name from the first write with a path (`w name`, `1w name`, `1,2w name`), is written
+    in part to its own path and undone all the way down (and further), then q / e / b; ghost disk of the unnamed buffer = empty,
+    from the naming write on the bytes of that file.  Line-buffer level: every list also from the init `@` (lbuf_make;
+    lbuf_saved(lb, 0) = DirtyDefs.ebuf_new), and aimed lists edit.. / whole write / partial write / undo past the start / redo.
 """
 import itertools, json, os, re, glob
 from concurrent.futures import ProcessPoolExecutor
@@ -43,6 +51,15 @@ TRUSTED = ['the Python ghost-disk oracle of tools/props/c02.py', 'file snapshots
 RELOAD = b'r\n'
 ALPHA = [E(0, 0, b'x\n'), E(0, 1, None), E(1, 1, b''), E(0, 0, None), 'M', 'U', 'R', 'S', 'P', 'L']
 INITS = [b'a\n', b'a\nb\nc\n']
+NONAME = None          # init of the buffer an editor started without a file name has: lbuf_make(); lbuf_saved(lb, 0) -- request word "@"
+
+
+def init_word(init):
+    return '@' if init is None else hx(init)
+
+
+def init_of(word):
+    return None if word == '@' else vlib.unhx(word)
 
 
 def expand(ops):
@@ -62,7 +79,10 @@ def oracle_flags(init, ops, answers):
         exp += [(i, x) for x in ([E(0, 99, RELOAD), 'S'] if o == 'L' else [o])]
     if len(answers) != len(exp):
         return (len(answers), 'the probe answered %d of %d operations' % (len(answers), len(exp)), len(exp), len(answers))
-    disk = init if init.endswith(b'\n') or not init else init + b'\n'
+    if init is None:
+        disk = b''          # no file: the text the editor started with
+    else:
+        disk = init if init.endswith(b'\n') or not init else init + b'\n'
     cur = disk
     pos = 0            # net undo/redo position relative to the last save; None = the saved position is unknown or gone
     for (i, o), a in zip(exp, answers):
@@ -92,7 +112,11 @@ def oracle_flags(init, ops, answers):
             if flag != '0':
                 return (i, 'right after a write of the whole buffer to its own path (or a reload) the buffer is still reported modified', 'flag 0', 'flag ' + flag)
         elif k == 'P':
-            disk = b''.join(lines_of(now)[1:])          # ":2,$w" -- the first line is missing from the file
+            if len(o) > 1:                              # P<b>,<e>: lines b..e-1 went to the file
+                pb, pe = [int(x) for x in o[1:].split(',')]
+                disk = b''.join(lines_of(now)[pb:pe])
+            else:
+                disk = b''.join(lines_of(now)[1:])      # ":2,$w" -- the first line is missing from the file
             pos = None
         elif k == 'M':
             if rc != flag:
@@ -109,7 +133,7 @@ def oracle_flags(init, ops, answers):
 
 def chunk_worker(args):
     probe, model, cases = args
-    lines = [hx(init) + ' ' + ' '.join(expand(ops)) for init, ops in cases]
+    lines = [init_word(init) + ' ' + ' '.join(expand(ops)) for init, ops in cases]
     viol, dis = [], []
     rc, out_c, err = run_exe(probe, lines)
     if rc != 0 or len(out_c) != len(lines):
@@ -122,12 +146,32 @@ def chunk_worker(args):
             for (init, ops), a, b in zip(cases, out_c, out_m):
                 if a != b and len(dis) < 5:
                     dis.append({'what': 'model and implementation differ on the modified flag, the result code or the text after some operation',
-                                'input': {'kind': 'lbuf', 'init': hx(init), 'ops': ops}, 'implementation': a, 'model': b})
+                                'input': {'kind': 'lbuf', 'init': init_word(init), 'ops': ops}, 'implementation': a, 'model': b})
     for (init, ops), a in zip(cases, out_c):
         bad = oracle_flags(init, ops, a.split(' ') if a else [])
         if bad and len(viol) < 5:
-            viol.append({'init': hx(init), 'ops': ops, 'bad': bad})
+            viol.append({'init': init_word(init), 'ops': ops, 'bad': bad})
     return {'n': len(cases), 'viol': viol, 'dis': dis}
+
+
+def aimed_lbuf():
+    """edits (each its own command), a whole write after one of them or none, a partial own-path write or none, then undo further
+    than there are edits, redo all, undo all -- from the unnamed start (useq_last = 0) and from a file (useq_last >= 1)"""
+    out = []
+    for init in (NONAME, b'a\nb\n', b''):
+        for k in (1, 2, 3, 5):
+            for save_at in (None, 0, k - 1):
+                for part in ('P', 'P0,1', 'P0,2', None):
+                    ops = []
+                    for i in range(k):
+                        ops += [E(i, i, b'l%d\nm%d\n' % (i, i)), 'M']
+                        if save_at == i:
+                            ops += ['S', 'M']
+                    if part:
+                        ops += [part, 'M']
+                    ops += ['U', 'M'] * (k + 2) + ['R', 'M'] * (k + 2) + ['U'] * (k + 2) + ['M']
+                    out.append((init, ops))
+    return out
 
 
 def rand_ops(rng, n):
@@ -199,10 +243,18 @@ def gen_history(rng, ncmd):
         f = rng.choice(['q', 'q', 'q', 'wq', 'x', 'wq %s', 'x %s', '1,2wq %s', 'wq !cat >/dev/null', 'x !cat >/dev/null'])
         return ('q', f % other() if '%s' in f else f, None)
 
+    def eself():
+        # :e with an empty or self-referring argument: `e` / `e +1` re-read the file over the buffer (refused without ! on a buffer
+        # that differs from its file), `e %` only "switches" to the buffer itself, `e #` goes to the alternate buffer
+        t = rng.choice(['e', 'e', 'e', 'e +1', 'e %', 'e %', 'e #', 'e! %'])
+        return ('e', t, None) if t == 'e #' else ('eforce', t, None) if '!' in t else ('eself', t, None)
+
     cmds = []      # (kind, text, info)
     for _ in range(ncmd):
-        r = rng.below(42)
-        if r >= 40:
+        r = rng.below(46)
+        if r >= 42:
+            cmds.append(eself())
+        elif r >= 40:
             uniq[0] += 1
             if rng.chance(1, 2):
                 cmds.append(('bulk', bulk_block(rng, rng.choice([40, 130, 260, 600]), 'b%d_' % uniq[0]), None))
@@ -246,10 +298,69 @@ def gen_history(rng, ncmd):
             [('mod', mod(), None), ('w', 'w', None), ('u', 'u', None), ('q', 'q', None), ('r', 'redo', None), ('q', 'q', None)],
             [('mod', mod(), None), ('mod', mod(), None), ('u', 'u', None), ('u', 'u', None), ('q', 'q', None)],
             [('mod', mod(), None), ('wpart', '1w', None), ('u', 'u', None), ('e', 'e %s' % t, t)],
+            [('mod', mod(), None), ('eself', 'e', None), ('q', 'q', None)],
+            [('mod', mod(), None), ('w', 'w', None), ('mod', mod(), None), ('eself', rng.choice(['e', 'e +1', 'e %']), None), ('q', 'q', None)],
+            [('mod', mod(), None), ('wpart', rng.choice(['1w', '2,$w']), None), ('u', 'u', None), ('eself', 'e', None), ('q', 'q', None)],
+            [('mod', mod(), None), ('u', 'u', None), ('eself', 'e', None), ('q', 'q', None)],
+            [('mod', mod(), None), ('mod', mod(), None), ('wpart', rng.choice(['1w', '1,2w', '2,$w']), None)] + [('u', 'u', None)] * 3 + [rng.choice([('q', 'q', None), ('eself', 'e', None), ('b', 'b 1', None)])],
         ])
         cmds = shape + cmds[:max(0, ncmd - len(shape))]
     cmds.append(quit_cmd())
     cmds.append(('q', 'q', None))
+    return files, cmds
+
+
+NEWNAME = 'n1.txt'
+
+
+def gen_noname(rng, aimed=True):
+    """a session of an editor started WITHOUT a file name (argv has none; other files may exist and be opened later): the unnamed
+    buffer is modified by a few commands, gets its name from the first write with a path (`w name`: whole; `1w name`, `1,2w name`: a
+    part -- the name is adopted all the same), is modified again, written -- in part or whole -- to its own path, and then undone all
+    the way down to the state before the first change (and further), with q / e / b asked on the way; then redo, and a random tail"""
+    files, tail = gen_history(rng, rng.choice([3, 6, 9]))
+    uniq = [0]
+
+    def app():
+        uniq[0] += 1
+        u = uniq[0]
+        return ('mod', rng.choice(['a\nn%da x\nn%db x\n.', 'a\nn%da x\n.', '0a\nn%dz x\nn%dy x\n.', 'a\nn%da x\nn%db x\nn%dc x\n.']).replace('%d', str(u)), None)
+
+    def ask():
+        r = rng.below(6)
+        if r < 3:
+            return ('q', 'q', None)
+        if r == 3:
+            return ('eself', rng.choice(['e', 'e %']), None)
+        if r == 4:
+            return ('e', 'e f1.txt', 'f1.txt')
+        return ('b', 'b %d' % rng.choice([1, 2]), None)
+
+    cmds = []
+    n1 = rng.choice([1, 1, 2, 3])
+    for _ in range(n1):
+        cmds.append(app())
+    if rng.chance(1, 4):
+        cmds += [('u', 'u', None), ask(), ('r', 'redo', None)]
+    cmds.append(('wname', rng.choice(['w %s', 'w %s', '1w %s', '1,2w %s']) % NEWNAME, NEWNAME))
+    if rng.chance(1, 3):
+        cmds.append(ask())
+    n2 = rng.choice([0, 1, 1, 2])
+    for _ in range(n2):
+        cmds.append(app())
+    pw = rng.choice(['1,2w', '1w', '2,$w', '1,1w', 'w', None])
+    if pw:
+        cmds.append(('w', 'w', None) if pw == 'w' else ('wpart', pw, None))
+    if aimed:
+        nu = n1 + n2 + rng.choice([0, 0, 1, 2])
+        for i in range(nu):
+            cmds.append(('u', 'u', None))
+            if i >= n1 + n2 - 1 or rng.chance(1, 3):
+                cmds.append(ask())
+        for _ in range(rng.choice([0, 1, nu])):
+            cmds.append(('r', 'redo', None))
+        cmds.append(ask())
+    cmds += tail
     return files, cmds
 
 
@@ -297,7 +408,34 @@ def gen_long(rng, n, variant):
 
 
 def writes_files(c):
-    return c[0] in ('w', 'wpart', 'wother', 'wjoin') or (c[0] == 'q' and c[1] != 'q')
+    return c[0] in ('w', 'wpart', 'wother', 'wjoin', 'wname') or (c[0] == 'q' and c[1] != 'q')
+
+
+PIPE_WRITE_RE = re.compile(r'^[0-9,$%]*(w|wq|x)!?\s*!')
+WRITE_RE = re.compile(r'^([0-9,$]*)(w|wq|x)(!?)(?:\s+(\S.*))?$')
+
+
+def parse_write(ctext):
+    """(range text, path argument or None) of a single write / write-and-quit command; None if it is not one (or a |-joined line)"""
+    m = WRITE_RE.match(ctext)
+    if not m or '|' in ctext:
+        return None
+    arg = m.group(4)
+    return (m.group(1), None if (arg is None or arg.startswith('!')) else arg.strip())
+
+
+def hist_names(files, cmds, noname=False):
+    """the files whose bytes are snapshotted: the given ones; in a session started without a file name also every path a write
+    names (the unnamed buffer takes the first one as its own)"""
+    names = sorted(files)
+    if noname:
+        extra = set()
+        for c in cmds:
+            w = parse_write(c[1]) if c[0] in ('wname', 'wother', 'q') else None
+            if w and w[1] and w[1] not in files:
+                extra.add(w[1])
+        names += sorted(extra)
+    return names
 
 
 def gen_many(rng, nb, nbufs, slots=None, final=None):
@@ -414,10 +552,10 @@ def choose_fault(rng, calls, save_step):
     return [(c[0], 'err', rng.choice([28, 5, 122]))]          # ENOSPC, EIO, EDQUOT
 
 
-def build_script(files, cmds, every=False):
+def build_script(files, cmds, every=False, noname=False):
     """every: file snapshots and the line count of the shim log after EVERY command (fault histories)"""
     s = []
-    names = sorted(files)
+    names = hist_names(files, cmds, noname)
 
     def observe(k):
         s.append('ec @@B%d@@' % k)
@@ -434,7 +572,12 @@ def build_script(files, cmds, every=False):
         s.append('ec @@A%d@@' % k)          # still alive after the command
         if every or writes_files((kind, text)):
             for j, n in enumerate(names):
-                s.append('%%w !cp %s snap_%d_%d 2>/dev/null' % (n, k, j))          # %: does not depend on the current line
+                if noname:
+                    # `w !cmd` on a buffer WITHOUT a name makes "!cmd" its name (ec_write adopts any "path"): the snapshot must not
+                    # touch the buffer.  rx = pipe a register through a command: no buffer, no guard involved
+                    s.append('rx z cp %s snap_%d_%d 2>/dev/null' % (n, k, j))
+                else:
+                    s.append('%%w !cp %s snap_%d_%d 2>/dev/null' % (n, k, j))          # %: does not depend on the current line
         if every:
             s.append('%%w !cat shim.log 2>/dev/null | wc -l >nlog_%d' % k)
         observe(k)
@@ -443,7 +586,7 @@ def build_script(files, cmds, every=False):
     return ('\n'.join(s) + '\n').encode()
 
 
-LIST_RE = re.compile(rb'\s*(\d+) (.) (\S+) (.)')
+LIST_RE = re.compile(rb'\s*(\d+) (.) (\S*) (.)')          # the path of the unnamed buffer is empty
 
 
 def parse_run(out, ncmd):
@@ -479,14 +622,17 @@ def whole_range(loc, n):
     return m is not None and m[0] == 0 and m[1] == n
 
 
-def oracle_history(files, cmds, obs, exited_at, snaps, fault=None, final=None, nbufs=16, notes=None):
+def oracle_history(files, cmds, obs, exited_at, snaps, fault=None, final=None, nbufs=16, notes=None, names=None):
     """The property on the observations.  Returns None or (step, what, expected, observed).
     fault (histories under the shim): {'status': {step: {file: 'failed' | 'saved'}}} -- the outcome, read off the shim log, of the
     last save of that file in that step ('failed' = one of its open/write/close calls got an injected error).  The ghost disk of a
     file is its content when last read or last SUCCESSFULLY written: a failed save does not move it.
-    final: file bytes after the run (for xa, which exits without a later observation).  nbufs = LEN(bufs)."""
-    names = sorted(files)
-    content = {n: files[n] for n in names}          # ghost disk: file bytes when last read / last successfully written
+    final: file bytes after the run (for xa, which exits without a later observation).  nbufs = LEN(bufs).
+    names: the snapshotted files in snapshot order (default: the given files).  A buffer with the empty path '' is the unnamed
+    buffer of an editor started without a file name: it has no file, its ghost disk is the empty text it started with; the first
+    write with a path gives it that path (ec_write adopts it), from then on its ghost disk is the bytes of that file."""
+    names = sorted(files) if names is None else names
+    content = {n: files[n] for n in names if n in files}          # ghost disk: file bytes when last read / last successfully written
     stale = {}                                      # file -> the real file may differ from the ghost disk (a save of it failed)
     text = {}                                       # path -> text when last current
     state = {}                                      # path -> depth relative to the saved position (int) or None (unknown/gone)
@@ -513,7 +659,21 @@ def oracle_history(files, cmds, obs, exited_at, snaps, fault=None, final=None, n
         saved_state_before = {p: (state.get(p) == 0 and not dirty_before[p] and content.get(p, b'') is not None) for p in text}
         gone = exited_at == k
         sv_here = fault['status'].get(k, {}) if fault else {}
-        if kind == 'q' and ctext in ('wq', 'x'):
+        if prev_cur == '' and PIPE_WRITE_RE.match(ctext_full) and '|' not in ctext_full.split('!', 1)[0]:
+            # finding candidate KF-UNNAMED-PIPE-WRITE (fixes/C02-unnamed-pipe-write.patch): `w !cmd` / `wq !cmd` / `x !cmd` on the
+            # buffer WITHOUT a name makes "!cmd" the buffer's name and marks it saved although no file holds the text.  One root
+            # cause, found on the unchanged tree; the history is not judged past this point (counted)
+            if notes is not None:
+                notes['unnamed_pipe_write'] = k
+            return None
+        wq = parse_write(ctext_full) if kind == 'q' else None
+        if kind == 'q' and prev_cur == '' and wq is not None:
+            # the unnamed buffer: wq / x without a path cannot write ("write failed": no exit is demanded, none forbidden beyond the
+            # rule below); with a path the buffer takes that name and is written there, whole (then it is saved) or in part
+            saved_state_before = {p: False for p in saved_state_before}
+            if wq[1] is not None:
+                dirty_before[prev_cur] = False
+        elif kind == 'q' and ctext in ('wq', 'x'):
             # the current buffer is first written whole to its own path (x: if it is reported modified): for the decision it is saved --
             # under the shim only if the log shows a save of it in this step without an injected error
             if (sv_here.get(prev_cur) == 'saved') if fault else True:
@@ -557,6 +717,16 @@ def oracle_history(files, cmds, obs, exited_at, snaps, fault=None, final=None, n
             return (k, 'no current buffer in the listing', '%', lst)
         cur = curl[0]
         listed = {p for (_, _, p, _) in lst}
+        # the unnamed buffer takes the path of the first write that names one
+        wr = parse_write(ctext_full) if kind in ('w', 'wpart', 'wother', 'wname', 'q') else None
+        if prev_cur == '' and '' in text and '' not in listed and wr is not None and wr[1] == cur and cur not in text:
+            for dct in (text, state, dirty_before, saved_state_before):
+                if '' in dct:
+                    dct[cur] = dct.pop('')
+            content.pop('', None)
+            before_paths.discard('')
+            before_paths.add(cur)
+            prev_cur = cur
         # a full table: :e of a file that is not open recycles the last slot (the least recently used buffer).  More than LEN(bufs)
         # buffers are outside the property's quantifier; a modified buffer lost that way is DESIGN section 9 row 17 (C20): not judged
         prevl = obs[k - 1]['listing']
@@ -576,7 +746,7 @@ def oracle_history(files, cmds, obs, exited_at, snaps, fault=None, final=None, n
                 return (k, 'buffer %s disappeared from the buffer list after %r' % (p, ctext), 'still open', lst)
         # file contents (snapshots exist after writing commands)
         if fault is None:
-            if kind in ('w', 'wpart', 'wother', 'wjoin') or (kind == 'q' and ctext != 'q'):
+            if kind in ('w', 'wpart', 'wother', 'wjoin', 'wname') or (kind == 'q' and ctext != 'q'):
                 for j, n in enumerate(names):
                     sn = snaps.get('snap_%d_%d' % (k, j))
                     if sn is not None:
@@ -598,16 +768,24 @@ def oracle_history(files, cmds, obs, exited_at, snaps, fault=None, final=None, n
                 else:
                     content[n] = sn
         refused = b'buffer modified' in o['cmdout']
-        # refusal of :e other / :b n without ! when the current buffer differs from its file
+        # :e! on the unnamed buffer reads nothing and marks it saved as it is: the property speaks of "its
+        # file"; from here on the ghost disk of that buffer is unknown (not judged) until a write gives it a file
+        if prev_cur == '' and cur == '' and kind == 'reload':
+            content[''] = None
+        # refusal of :e (other file, no file name, own name) / :b n without ! when the current buffer differs from its file
         skip = False
         if kind == 'b':
             ids_before = {i for (i, _, _, _) in obs[k - 1]['listing']}
             skip = int(ctext.split()[1]) not in ids_before          # "no such buffer": refused for another reason
-        if kind in ('e', 'b') and not skip:
+        if kind in ('e', 'b', 'eself') and not skip:
             if dirty_before[prev_cur]:
                 if cur != prev_cur or not refused:
-                    return (k, '%r went through although the current buffer %s differs from its file' % (ctext, prev_cur),
-                            'refused with "buffer modified", %s stays current' % prev_cur, 'current %s, message %r' % (cur, o['cmdout'][:80]))
+                    return (k, '%r went through although the current buffer %s differs from its file' % (ctext, prev_cur or '(no name)'),
+                            'refused with "buffer modified", %s stays current with its text %r' % (prev_cur or '(no name)', text[prev_cur]),
+                            'current %s, message %r, text %r' % (cur or '(no name)', o['cmdout'][:80], o['text'][:200]))
+                if o['text'] != text[prev_cur]:
+                    return (k, '%r was refused but the text of the modified buffer %s changed: unsaved changes are discarded' % (ctext, prev_cur or '(no name)'),
+                            text[prev_cur], o['text'])
             elif saved_state_before[prev_cur]:
                 if refused:
                     return (k, '%r was refused although the current buffer %s is in its saved state' % (ctext, prev_cur), 'allowed', 'buffer modified')
@@ -646,6 +824,15 @@ def oracle_history(files, cmds, obs, exited_at, snaps, fault=None, final=None, n
                 state[p] = 0 if (ctext_full.endswith('|w') and wrote) else None
             elif kind == 'reload':
                 state[p] = 0 if re.search(rb'\[r\]', o['cmdout']) else None
+            elif kind == 'eself':
+                # `e` / `e +cmd` that went through re-read the file ([r]); refused, or `e %` (no read): the position stays
+                if re.search(rb'\[r\]', o['cmdout']):
+                    state[p] = 0
+            elif kind in ('wname', 'wother'):
+                # a write with a path: it concerns the saved position only if that path is the buffer's own (the naming write of the
+                # unnamed buffer, or its own name spelled out)
+                if wr is not None and wr[1] == p and wrote:
+                    state[p] = 0 if whole_range(wr[0], text[p].count(b'\n')) else None
             elif kind in ('bulk', 'ubulk'):
                 state[p] = None
         if kind == 'q' and ctext in ('wq', 'x') and prev_cur in text:
@@ -657,7 +844,7 @@ def oracle_history(files, cmds, obs, exited_at, snaps, fault=None, final=None, n
             if p in text and f == ' ' and dirty(p):
                 return (k, 'the buffer list shows %s as unmodified while its text differs from its file (after %r)' % (p, ctext),
                         "'*' (text %r, file %r)" % (text[p], content.get(p)), "' '")
-            if p in text and f == '*' and state.get(p) == 0 and not dirty(p) and content.get(p, b'') is not None and kind in ('w', 'reload', 'u', 'r', 'wjoin', 'wpart'):
+            if p in text and f == '*' and state.get(p) == 0 and not dirty(p) and content.get(p, b'') is not None and kind in ('w', 'reload', 'u', 'r', 'wjoin', 'wpart', 'wname', 'eself'):
                 return (k, 'the buffer list shows %s as modified in its saved state (after %r)' % (p, ctext), "' '", "'*'")
         prev_cur = cur
     return None
@@ -704,11 +891,12 @@ def parse_shim(files_back, ncmd):
     return calls, status
 
 
-def run_history(exe, model_q, files, cmds, timeout=30, nbufs=16, shim=None, sched=()):
+def run_history(exe, model_q, files, cmds, timeout=30, nbufs=16, shim=None, sched=(), noname=False):
     """shim: path of the LD_PRELOAD fault injector (fault histories: snapshots and the shim log after every command);
-    sched: [(call index, 'err' | 'short', errno | count)]"""
-    script = build_script(files, cmds, every=shim is not None)
-    names = sorted(files)
+    sched: [(call index, 'err' | 'short', errno | count)]; noname: the editor is started without a file name"""
+    script = build_script(files, cmds, every=shim is not None, noname=noname)
+    names = hist_names(files, cmds, noname)
+    argv = [] if noname else names[:1]
     env = None
     if shim is None:
         snapn = ['snap_%d_%d' % (k + 1, j) for k, c in enumerate(cmds) if writes_files(c) for j in range(len(names))]
@@ -718,9 +906,9 @@ def run_history(exe, model_q, files, cmds, timeout=30, nbufs=16, shim=None, sche
         extra = ['nlog_%d' % (k + 1) for k in range(len(cmds))] + ['shim.log']
         env = {'LD_PRELOAD': shim, 'NVSHIM_TARGETS': ':'.join(names), 'NVSHIM_LOG': 'shim.log',
                'NVSHIM_SCHED': ','.join('%d:%s:%d' % tuple(x) for x in sched)}
-    r = vlib.run_ex(exe, script, files=files, args=names[:1], readback=snapn + names + extra, timeout=timeout, env=env)
+    r = vlib.run_ex(exe, script, files=files, args=argv, readback=snapn + names + extra, timeout=timeout, env=env)
     if r.timed_out or r.crashed():
-        r = vlib.run_ex(exe, script, files=files, args=names[:1], readback=snapn + names + extra, timeout=3 * timeout, env=env)
+        r = vlib.run_ex(exe, script, files=files, args=argv, readback=snapn + names + extra, timeout=3 * timeout, env=env)
         if r.timed_out or r.crashed():
             return {'status': 'crash', 'what': 'editor crashed or hung (rc=%s timed_out=%s): %s' % (r.rc, r.timed_out, r.err[-400:])}
     obs, exited_at, ended = parse_run(r.out, len(cmds))
@@ -729,19 +917,23 @@ def run_history(exe, model_q, files, cmds, timeout=30, nbufs=16, shim=None, sche
         calls, status = parse_shim(r.files, len(cmds))
         fault = {'status': status}
     notes = {}
-    bad = oracle_history(files, cmds, obs, exited_at, r.files, fault=fault, final={n: r.files.get(n) for n in names}, nbufs=nbufs, notes=notes)
+    bad = oracle_history(files, cmds, obs, exited_at, r.files, fault=fault, final={n: r.files.get(n) for n in names}, nbufs=nbufs, notes=notes, names=names)
     # questions for the model of the refusal logic
     qs = []
     for k in range(1, min(len(obs), len(cmds)) + (1 if exited_at else 0)):
         kind = cmds[k - 1][0]
-        if kind not in ('q', 'e', 'b') or k - 1 >= len(obs):
+        if kind not in ('q', 'e', 'b', 'eself') or k - 1 >= len(obs):
             continue
         if notes.get('evicted_modified') and k >= notes['evicted_modified']:
+            break
+        if notes.get('unnamed_pipe_write') and k >= notes['unnamed_pipe_write']:
             break
         flags = [('1' if f == '*' else '0') for (_, _, _, f) in obs[k - 1]['listing']]
         paths = [p for (_, _, p, _) in obs[k - 1]['listing']]
         if kind == 'q' and cmds[k - 1][1] in ('wq', 'x', 'xa'):
             continue
+        if kind == 'q' and paths and paths[0] == '' and (parse_write(cmds[k - 1][1]) or ('', None))[1] is not None:
+            continue            # wq <path> / x <path> on the buffer without a name: it takes the name and is saved there first
         if kind == 'q':
             if exited_at == k:
                 qs.append(('Q ' + ' '.join(flags), 'quit', k))
@@ -749,6 +941,12 @@ def run_history(exe, model_q, files, cmds, timeout=30, nbufs=16, shim=None, sche
                 cur = [p for (_, c, p, _) in obs[k]['listing'] if c == '%']
                 if cur and cur[0] in paths and (b'buffer modified' in obs[k]['cmdout']):
                     qs.append(('Q ' + ' '.join(flags), 'stay %d' % paths.index(cur[0]), k))
+        elif kind == 'eself':
+            # :e without a file name / :e %: the model of that very path through ec_edit (GE = ec_edit_noarg, GO = ec_edit_own) says
+            # refused, or pass and the flag the current buffer has afterwards
+            if k < len(obs) and flags and obs[k]['listing']:
+                ans = 'refused' if b'buffer modified' in obs[k]['cmdout'] else 'pass %s' % ('1' if obs[k]['listing'][0][3] == '*' else '0')
+                qs.append((('GO ' if '%' in cmds[k - 1][1] else 'GE ') + ' '.join(flags), ans, k))
         elif k < len(obs) and not (kind == 'b' and int(cmds[k - 1][1].split()[1]) not in {i for (i, _, _, _) in obs[k - 1]['listing']}):
             qs.append(('G ' + ' '.join(flags), 'refused' if b'buffer modified' in obs[k]['cmdout'] else 'pass', k))
     # the first step with an injected error: the same command with the same schedule for the model with failing writes
@@ -829,28 +1027,30 @@ def run(ctx):
                 'random lists up to length 50.  history = one vi -s -e run over 1-4 files with the buffer list, the text, the messages and file snapshots observed '
                 'after every command; also histories over LEN(bufs)-1, LEN(bufs), LEN(bufs)+1 files with the modified buffer in every slot of the table, and fault '
                 'histories = the same under harness/faultshim.c with an error injected into one open/write/close call of a save (ghost disk = content when '
-                'last read or last SUCCESSFULLY written), each preceded by a dry run that lists the calls.  non-trivial = a history in which some :q/:e/:b was '
+                'last read or last SUCCESSFULLY written), each preceded by a dry run that lists the calls; every history contains :e with an empty or self-referring argument '
+                '(e, e +1, e %%, e #, e! %%); histories of an editor started WITHOUT a file name (the unnamed buffer gets its name from its first write with a path; partial '
+                'own-path write; undo down to the first state; q / e / b); lbuf lists also from the unnamed start (lbuf_make; lbuf_saved(lb, 0)).  non-trivial = a history in which some :q/:e/:b was '
                 'refused or a save failed; distinct = distinct history') % (L, len(ALPHA))
 
     def lbuf_fails(init):
         def f(sub):
-            rc, out, err = run_exe(probe, [hx(init) + ' ' + ' '.join(expand(sub))])
+            rc, out, err = run_exe(probe, [init_word(init) + ' ' + ' '.join(expand(sub))])
             return rc == 0 and len(out) == 1 and oracle_flags(init, sub, out[0].split(' ') if out[0] else []) is not None
         return f
 
     def report_lbuf(init, ops, bad):
         small = vlib.shrink(ops, lbuf_fails(init))
-        rc, out, err = run_exe(probe, [hx(init) + ' ' + ' '.join(expand(small))])
+        rc, out, err = run_exe(probe, [init_word(init) + ' ' + ' '.join(expand(small))])
         b2 = oracle_flags(init, small, out[0].split(' ') if out and out[0] else []) or bad
         res.violation({'what': 'lbuf interface, operation %d (%s): %s' % (b2[0] + 1, small[b2[0]] if b2[0] < len(small) else '?', b2[1]),
-                       'input': {'kind': 'lbuf', 'init': hx(init), 'ops': small, 'legend': 'E<b>,<e>,<hex> lbuf_edit; M lbuf_modified; U undo; R redo; S whole write (lbuf_saved 0); P partial own-path write (lbuf_unsaved); L reload'},
+                       'input': {'kind': 'lbuf', 'init': init_word(init), 'ops': small, 'legend': 'init: hex of the file read into the buffer (lbuf_saved(lb, 1)), @ = the buffer of an editor started without a file name (lbuf_make; lbuf_saved(lb, 0)); E<b>,<e>,<hex> lbuf_edit; M lbuf_modified; U undo; R redo; S whole write (lbuf_saved 0); P / P<b>,<e> partial own-path write (lbuf_unsaved; lines 1.. resp. b..e-1 are in the file); L reload'},
                        'expected': repr(b2[2]), 'observed': repr(b2[3]), 'answers': out[0] if out else ''})
 
     nb_box = [16]
 
-    def hist_fails(files):
+    def hist_fails(files, noname=False):
         def f(sub):
-            r = run_history(vi, None, files, sub, nbufs=nb_box[0])
+            r = run_history(vi, None, files, sub, nbufs=nb_box[0], noname=noname)
             return r['status'] == 'bad'
         return f
 
@@ -864,20 +1064,28 @@ def run(ctx):
                        'calls_of_the_faulted_steps': {str(k): [list(c) for c in cs] for k, cs in r.get('calls', {}).items() if any(c[2] for c in cs)},
                        'output_tail': r['out'].decode('latin-1')})
 
-    def report_hist(files, cmds, r):
-        small = vlib.shrink(cmds, hist_fails(files), max_steps=100)
-        r2 = run_history(vi, None, files, small, nbufs=nb_box[0])
+    def hist_input(files, cmds, noname=False):
+        inp = {'kind': 'history', 'files': {k: v.decode('latin-1') for k, v in files.items()}, 'cmds': [list(c) for c in cmds]}
+        if noname:
+            inp['noname'] = True
+            inp['legend'] = 'noname: the editor is started WITHOUT a file name (vi -s -e, no argument); the files exist in its directory'
+        return inp
+
+    def report_hist(files, cmds, r, noname=False):
+        small = vlib.shrink(cmds, hist_fails(files, noname), max_steps=100)
+        r2 = run_history(vi, None, files, small, nbufs=nb_box[0], noname=noname)
         if r2['status'] != 'bad':
             small, r2 = cmds, r
         bad = r2['bad']
-        res.violation({'what': 'history, command %d (%r): %s' % (bad[0], small[bad[0] - 1][1][:60] if 0 < bad[0] <= len(small) else '', bad[1]),
-                       'input': {'kind': 'history', 'files': {k: v.decode('latin-1') for k, v in files.items()}, 'cmds': [list(c) for c in small]},
+        res.violation({'what': '%s, command %d (%r): %s' % ('history of an editor started without a file name' if noname else 'history', bad[0],
+                                                            small[bad[0] - 1][1][:60] if 0 < bad[0] <= len(small) else '', bad[1]),
+                       'input': hist_input(files, small, noname),
                        'expected': repr(bad[2]), 'observed': repr(bad[3]), 'output_tail': r2['out'].decode('latin-1')})
 
     def run_input(inp):
         if inp.get('kind') == 'lbuf':
-            init, ops = vlib.unhx(inp['init']), list(inp['ops'])
-            rc, out, err = run_exe(probe, [hx(init) + ' ' + ' '.join(expand(ops))])
+            init, ops = init_of(inp['init']), list(inp['ops'])
+            rc, out, err = run_exe(probe, [init_word(init) + ' ' + ' '.join(expand(ops))])
             res.evaluations += 1
             bad = oracle_flags(init, ops, out[0].split(' ') if rc == 0 and out and out[0] else [])
             if bad:
@@ -885,10 +1093,11 @@ def run(ctx):
         elif inp.get('kind') == 'history':
             files = {k: v.encode('latin-1') for k, v in inp['files'].items()}
             cmds = [tuple(c) for c in inp['cmds']]
-            r = run_history(vi, None, files, cmds, nbufs=nb_box[0])
+            nn = bool(inp.get('noname'))
+            r = run_history(vi, None, files, cmds, nbufs=nb_box[0], noname=nn)
             res.evaluations += 1
             if r['status'] == 'bad':
-                report_hist(files, cmds, r)
+                report_hist(files, cmds, r, nn)
             elif r['status'] == 'crash':
                 res.violation({'what': r['what'], 'input': inp})
         elif inp.get('kind') == 'fault-history':
@@ -921,14 +1130,14 @@ def run(ctx):
 
     # ---- line-buffer level
     cases = []
-    for init in INITS:
-        depth = L if (ctx.quick or init == INITS[1]) else L - 1
+    for init in INITS + [NONAME]:
+        depth = L if (ctx.quick or init == INITS[1] or init is NONAME) else L - 1
         for n in range(1, depth + 1):
             for ops in itertools.product(ALPHA, repeat=n):
                 cases.append((init, list(ops)))
     res.count('lbuf exhaustive lists', len(cases))
     r2 = rng.fork('lbuf-random')
-    rcases = [(r2.choice(INITS + [b'', b'l1\nl2\nl3\nl4\n']), rand_ops(r2, r2.choice([6, 10, 16, 30, 50]))) for _ in range(3000 if ctx.quick else 100000)]
+    rcases = [(r2.choice(INITS + [b'', b'l1\nl2\nl3\nl4\n', NONAME, NONAME]), rand_ops(r2, r2.choice([6, 10, 16, 30, 50]))) for _ in range(3000 if ctx.quick else 100000)]
     res.count('lbuf random lists', len(rcases))
     lcases = []
     for n in ([130, 1000, 4200] if ctx.quick else [127, 128, 129, 257, 600, 1000, 2100, 4200, 5000, 8300]):
@@ -941,7 +1150,10 @@ def run(ctx):
             ops += ['U'] * (n + 5) + ['M', 'R', 'R', 'M'] + ['U'] * 3 + ['M']
             lcases.append((b'a\nb\n', ops))
     res.count('lbuf long lists (up to %d edits, undone past the start)' % max(len(o) for _, o in lcases), len(lcases))
-    allc = cases + rcases + lcases
+    acases = aimed_lbuf()
+    res.count('lbuf aimed lists (edits, whole write, partial write, undo past the start, redo; unnamed start and file start)', len(acases))
+    res.count('lbuf lists from the unnamed start (lbuf_make; lbuf_saved(lb, 0): useq_last = 0)', sum(1 for i, _ in cases + rcases + acases if i is NONAME))
+    allc = cases + rcases + lcases + acases
     nchunk = max(16, len(allc) // 40000)
     size = (len(allc) + nchunk - 1) // nchunk
     jobs = [(probe, model, allc[i:i + size]) for i in range(0, len(allc), size)]
@@ -953,9 +1165,9 @@ def run(ctx):
             res.disagree(d)
         for v in o['viol'][:2]:
             if len(res.violations) < 3:
-                report_lbuf(vlib.unhx(v['init']), v['ops'], v['bad'])
+                report_lbuf(init_of(v['init']), v['ops'], v['bad'])
     for init, ops in rcases[:2] + cases[3000:3002]:
-        res.sample({'kind': 'lbuf', 'init': hx(init), 'ops': ' '.join(ops)})
+        res.sample({'kind': 'lbuf', 'init': init_word(init), 'ops': ' '.join(ops)})
 
     # ---- histories on the real binary
     nh = 250 if ctx.quick else 6000
@@ -982,42 +1194,52 @@ def run(ctx):
     res.count('histories over LEN(bufs)-1 .. LEN(bufs)+1 files (modified buffer in every slot)', len(many))
     nmany0 = len(hs)
     hs += many
-    houts = vlib.pmap(lambda h: run_history(vi, None, h[0], h[1], timeout=60, nbufs=NB), hs)
+    # round h: sessions of an editor started without a file name
+    r7 = rng.fork('noname')
+    nns = [gen_noname(r7, aimed=(i % 4 != 3)) for i in range(120 if ctx.quick else 3000)]
+    res.count('histories of an editor started without a file name (unnamed buffer named by its first write; partial own-path write; undo to the first state)', len(nns))
+    n_named = len(hs)
+    hs += nns
+    houts = vlib.pmap(lambda ih: run_history(vi, None, ih[1][0], ih[1][1], timeout=60, nbufs=NB, noname=ih[0] >= n_named), list(enumerate(hs)))
     questions = []
     nref = 0
-    for (files, cmds), r in zip(hs, houts):
+    for hi, ((files, cmds), r) in enumerate(zip(hs, houts)):
+        nn = hi >= n_named
         res.evaluations += 1
-        res.count('histories with %d file(s)' % len(files))
+        res.count('histories with %d file(s)' % len(files) + (' besides the unnamed buffer' if nn else ''))
         for c in cmds:
             res.count('cmd ' + c[0])
         if r['status'] == 'crash':
-            res.violation({'what': r['what'], 'input': {'kind': 'history', 'files': {k: v.decode('latin-1') for k, v in files.items()}, 'cmds': [list(c) for c in cmds]}})
+            res.violation({'what': r['what'], 'input': hist_input(files, cmds, nn)})
             continue
         if r['refusals']:
             nref += 1
             res.nontriv(repr((sorted(files.items()), cmds)))
+        if r.get('notes', {}).get('unnamed_pipe_write'):
+            res.count('histories not judged past a `w !cmd` on the buffer without a name (finding candidate KF-UNNAMED-PIPE-WRITE, fixes/C02-unnamed-pipe-write.patch)')
         if r.get('notes', {}).get('evicted_modified'):
             res.count('histories not judged past the point where a full table recycled a modified buffer (outside the quantifier, C20 row 17)')
-        if len(files) >= NB and r.get('maxbufs', 0) != NB and r['status'] == 'ok':
+        if len(files) >= NB and r.get('maxbufs', 0) != NB and r['status'] == 'ok' and not nn:
             res.disagree({'what': 'the model\'s table has %d slots (NBUFS generated from ex.c) but with %d files opened the buffer list shows at most %d buffers' % (NB, len(files), r.get('maxbufs', 0)),
                           'input': {'kind': 'history', 'files': {k: v.decode('latin-1') for k, v in files.items()}, 'cmds': [list(c) for c in cmds]}})
-        if r['status'] == 'bad' and sum(1 for v in res.violations if v.get('input', {}).get('kind') == 'history') < 3:
-            report_hist(files, cmds, r)
-        questions += [(q, a, files, cmds, k) for (q, a, k) in r['qs']]
+        if r['status'] == 'bad' and sum(1 for v in res.violations if v.get('input', {}).get('kind') == 'history' and bool(v['input'].get('noname')) == nn) < 3:
+            report_hist(files, cmds, r, nn)
+        questions += [(q, a, files, cmds, k, nn) for (q, a, k) in r['qs']]
     res.extra['histories_with_a_refusal'] = nref
     if hs:
         res.sample({'kind': 'history', 'files': sorted(hs[0][0]), 'cmds': [c[1] for c in hs[0][1]]})
     # ---- the model of the refusal logic answers the same questions
     if model and questions:
-        rc, out, err = run_exe(model, [q for q, _, _, _, _ in questions])
+        rc, out, err = run_exe(model, [q[0] for q in questions])
         if rc != 0 or len(out) != len(questions):
             res.disagree({'what': 'model driver (refusal logic): rc=%d, %d answers for %d questions' % (rc, len(out), len(questions))})
         else:
             res.count('refusal-logic questions answered by the model', len(questions))
-            for (q, a, files, cmds, k), m in zip(questions, out):
+            res.count('of these: :e without a file name / :e % (ec_edit_noarg / ec_edit_own)', sum(1 for q in questions if q[0][:2] in ('GE', 'GO')))
+            for (q, a, files, cmds, k, nn), m in zip(questions, out):
                 if a != m:
                     res.disagree({'what': 'model of ec_quit / the :e :b guard and the implementation decide differently',
-                                  'input': {'kind': 'history', 'files': {x: v.decode('latin-1') for x, v in files.items()}, 'cmds': [list(c) for c in cmds]},
+                                  'input': hist_input(files, cmds, nn),
                                   'question': q, 'step': k, 'implementation': a, 'model': m})
 
     # ---- round f: saves that fail (LD_PRELOAD shim): dry run -> the calls of every step -> one call gets an error
